@@ -197,6 +197,19 @@ class Compiler:
             return
         self._emit(OpCode.STORE_NAME, self._add_name(name))
 
+    def _compile_finalizer_with_pending_exception(self, finalizer: Node) -> None:
+        """Compile a finally block that runs while the pending exception is on the stack.
+
+        A break/continue inside the block abandons the exception and has to pop it:
+        the block is compiled inside a context that owns one stack slot. Its label
+        cannot be written in source, so no break/continue ever targets it.
+        """
+        self.loop_stack.append(
+            LoopContext(label="<pending exception>", is_loop=False, stack_slots=1)
+        )
+        self._compile_statement(finalizer)
+        self.loop_stack.pop()
+
     def _take_loop_label(self) -> Optional[str]:
         """Label attached to the loop statement being compiled (for 'continue label')."""
         label, self._pending_loop_label = self._pending_loop_label, None
@@ -817,7 +830,7 @@ class Compiler:
                     self._patch_jump(catch_try)
                     try_ctx.handler_active = False
                     self.try_stack.pop()
-                    self._compile_statement(node.finalizer)
+                    self._compile_finalizer_with_pending_exception(node.finalizer)
                     self.try_stack.append(try_ctx)
                     self._emit(OpCode.THROW)  # Rethrow the exception
                     self._patch_jump(jump_over)
@@ -828,7 +841,7 @@ class Compiler:
                 # No catch, only finally - exception is on stack
                 # Run finally then rethrow
                 self.try_stack.pop()
-                self._compile_statement(node.finalizer)
+                self._compile_finalizer_with_pending_exception(node.finalizer)
                 self.try_stack.append(try_ctx)
                 self._emit(OpCode.THROW)  # Rethrow the exception
 
